@@ -297,6 +297,9 @@ func (st *State) appendOp(fr *Frame, args []Value) Value {
 			nc = dlen + n
 		}
 		ns := st.makeSlice(et, dlen+n, nc)
+		if st.isModelFn(fr.fn) {
+			ns.obj.syncObj = true
+		}
 		for i := 0; i < dlen; i++ {
 			for k := 0; k < l.n; k++ {
 				ns.obj.slots[i*l.n+k] = dst.obj.slots[dst.off+i*l.n+k]
@@ -738,7 +741,7 @@ func init() {
 		p := args[0].(Pointer)
 		if p.obj.slots[p.off].(uint64) == 0 {
 			st.setSlot(p.obj, p.off, uint64(1))
-			st.hbAcquire(p.obj)
+			st.hbAcquire(p.obj, p.off)
 			return true, stNext
 		}
 		return false, stNext
@@ -753,7 +756,7 @@ func init() {
 			return nil, st.block(g, "rwmutex lock")
 		}
 		st.setSlot(p.obj, p.off, uint64(1))
-		st.hbAcquire(p.obj)
+		st.hbAcquire(p.obj, p.off)
 		return nil, stNext
 	})
 	N("(*sync.RWMutex).Unlock", func(st *State, g *Goroutine, fr *Frame, fn *ssa.Function, args []Value) (Value, status) {
@@ -764,7 +767,7 @@ func init() {
 		if p.obj.slots[p.off].(uint64) == 0 {
 			st.rtPanic("sync: Unlock of unlocked RWMutex")
 		}
-		st.hbRelease(p.obj)
+		st.hbRelease(p.obj, p.off)
 		st.setSlot(p.obj, p.off, uint64(0))
 		return nil, stNext
 	})
@@ -778,7 +781,7 @@ func init() {
 			return nil, st.block(g, "rwmutex rlock")
 		}
 		st.setSlot(p.obj, p.off+4, p.obj.slots[p.off+4].(uint64)+1)
-		st.hbAcquire(p.obj)
+		st.hbAcquire(p.obj, p.off)
 		return nil, stNext
 	})
 	N("(*sync.RWMutex).RUnlock", func(st *State, g *Goroutine, fr *Frame, fn *ssa.Function, args []Value) (Value, status) {
@@ -789,7 +792,7 @@ func init() {
 		if p.obj.slots[p.off+4].(uint64) == 0 {
 			st.rtPanic("sync: RUnlock of unlocked RWMutex")
 		}
-		st.hbRelease(p.obj)
+		st.hbRelease(p.obj, p.off)
 		st.setSlot(p.obj, p.off+4, p.obj.slots[p.off+4].(uint64)-1)
 		return nil, stNext
 	})
@@ -803,7 +806,7 @@ func init() {
 		if c < 0 {
 			st.rtPanic("sync: negative WaitGroup counter")
 		}
-		st.hbRelease(p.obj)
+		st.hbRelease(p.obj, p.off)
 		st.setSlot(p.obj, p.off, uint64(c))
 		return nil, stNext
 	})
@@ -816,7 +819,7 @@ func init() {
 		if c < 0 {
 			st.rtPanic("sync: negative WaitGroup counter")
 		}
-		st.hbRelease(p.obj)
+		st.hbRelease(p.obj, p.off)
 		st.setSlot(p.obj, p.off, uint64(c))
 		return nil, stNext
 	})
@@ -829,7 +832,7 @@ func init() {
 			g.waitOn, g.waitKind = p, waitWG
 			return nil, st.block(g, "waitgroup wait")
 		}
-		st.hbAcquire(p.obj)
+		st.hbAcquire(p.obj, p.off)
 		return nil, stNext
 	})
 	N("(*sync.Once).Do", func(st *State, g *Goroutine, fr *Frame, fn *ssa.Function, args []Value) (Value, status) {
@@ -838,11 +841,11 @@ func init() {
 			return nil, stYield
 		}
 		if p.obj.slots[p.off].(uint64) != 0 {
-			st.hbAcquire(p.obj)
+			st.hbAcquire(p.obj, p.off)
 			return nil, stNext
 		}
 		st.setSlot(p.obj, p.off, uint64(1))
-		st.hbRelease(p.obj)
+		st.hbRelease(p.obj, p.off)
 		cl := args[1].(*Closure)
 		if cl == nil {
 			st.rtPanic("nil func in Once.Do")
@@ -1236,8 +1239,8 @@ func (st *State) to64w(v Value, w int) Value {
 }
 
 func (st *State) atomicAccess(p Pointer) {
-	st.hbAcquire(p.obj)
-	st.hbRelease(p.obj)
+	st.hbAcquire(p.obj, p.off)
+	st.hbRelease(p.obj, p.off)
 }
 
 type yieldNow struct{}
@@ -1287,7 +1290,7 @@ func nativeLock(st *State, g *Goroutine, fr *Frame, fn *ssa.Function, args []Val
 		return nil, st.block(g, "mutex lock")
 	}
 	st.setSlot(p.obj, p.off, uint64(1))
-	st.hbAcquire(p.obj)
+	st.hbAcquire(p.obj, p.off)
 	return nil, stNext
 }
 
@@ -1299,7 +1302,7 @@ func nativeUnlock(st *State, g *Goroutine, fr *Frame, fn *ssa.Function, args []V
 	if p.obj.slots[p.off].(uint64) == 0 {
 		st.rtPanic("sync: unlock of unlocked mutex")
 	}
-	st.hbRelease(p.obj)
+	st.hbRelease(p.obj, p.off)
 	st.setSlot(p.obj, p.off, uint64(0))
 	return nil, stNext
 }
